@@ -175,3 +175,4 @@ func sweep(c *driver.Ctx, name string, backoff time.Duration, factor float64) {
 			}
 		}
 	}
+}
